@@ -52,6 +52,9 @@ func (e event) String() string {
 	case kFIN:
 		return p + "FIN"
 	case kRST:
+		if e.b == 1 {
+			return fmt.Sprintf("%sRST@%d", p, e.a)
+		}
 		return p + "RST"
 	case kFO:
 		if e.rel == 99 {
@@ -90,7 +93,7 @@ func families(thorough bool) []family {
 	f1 := family{name: "one-direction", n: 4, depth: 5, limits: lim4}
 	f1.alpha = append(f1.alpha, event{k: kSYN})
 	f1.alpha = append(f1.alpha, dataLetters(0, 0, 4, []int{0, 1, 2, 3, 4})...)
-	f1.alpha = append(f1.alpha, event{k: kFIN}, event{k: kRST})
+	f1.alpha = append(f1.alpha, event{k: kFIN}, event{k: kRST}, event{k: kRST, a: 0, b: 1}, event{k: kRST, a: 2, b: 1})
 	f1.alpha = append(f1.alpha, flush...)
 	// F2: two connections x two directions, 2-byte streams
 	f2 := family{name: "two-connections", n: 2, depth: 4, limits: [][2]int{{0, 0}, {1, 0}, {0, 2}}}
@@ -98,7 +101,7 @@ func families(thorough bool) []family {
 		for d := 0; d < 2; d++ {
 			f2.alpha = append(f2.alpha, event{k: kSYN, c: c, d: d})
 			f2.alpha = append(f2.alpha, dataLetters(c, d, 2, []int{0, 1, 2})...)
-			f2.alpha = append(f2.alpha, event{k: kFIN, c: c, d: d}, event{k: kRST, c: c, d: d})
+			f2.alpha = append(f2.alpha, event{k: kFIN, c: c, d: d}, event{k: kRST, c: c, d: d}, event{k: kRST, c: c, d: d, a: 0, b: 1})
 		}
 	}
 	f2.alpha = append(f2.alpha, event{k: kFO, rel: 0}, event{k: kFO, rel: 1}, event{k: kFO, rel: 99}, event{k: kFA})
@@ -107,7 +110,7 @@ func families(thorough bool) []family {
 	f3 := family{name: "multi-page", n: n3, depth: 5, limits: [][2]int{{0, 0}, {1, 0}, {2, 0}, {3, 0}, {0, 2}, {0, 4}}}
 	f3.alpha = append(f3.alpha, event{k: kSYN})
 	f3.alpha = append(f3.alpha, dataLetters(0, 0, n3, []int{0, 1, pageBytes + 3, n3})...)
-	f3.alpha = append(f3.alpha, event{k: kFIN}, event{k: kRST}, event{k: kFO, rel: 0}, event{k: kFO, rel: 1})
+	f3.alpha = append(f3.alpha, event{k: kFIN}, event{k: kRST}, event{k: kRST, a: 0, b: 1}, event{k: kFO, rel: 0}, event{k: kFO, rel: 1})
 	if thorough {
 		f1.depth, f2.depth = 6, 5
 		f2.limits = lim4
@@ -298,7 +301,13 @@ func (h *harness) run(f *family, lim [2]int, beh int, seq []int) (hs *hist) {
 			case kFIN:
 				h.tcp.Seq, h.tcp.FIN = isn+1+uint32(f.n), true
 			case kRST:
-				h.tcp.Seq, h.tcp.RST = isn+1+uint32(f.n), true
+				// RST at the end of the stream, or (b == 1) at stream offset a: an abort in the
+				// middle of the stream, possibly with later segments still queued
+				pos := f.n
+				if e.b == 1 {
+					pos = e.a
+				}
+				h.tcp.Seq, h.tcp.RST = isn+1+uint32(pos), true
 			}
 			h.tcp.Payload = pl
 			h.tcp.SetInternalPortsForTesting()
